@@ -359,6 +359,10 @@ def run_case(case, obs):
         ex, ey = reg.end.x - ox, reg.end.y - oy
         length = math.hypot(ex - sx, ey - sy)
         if length == 0:
+            # a line of no extent: the (degenerate) arrow sits on that position, shifted by the plot origin like everything else
+            d = float(np.hypot(v[:, 0] - sx, v[:, 1] - sy).max()) if len(v) else float('inf')
+            obs.check(d <= 1.0, 'line-artist-not-start-to-end', f'artist of a zero-length line at ({sx!r}, {sy!r}) (origin ({ox!r}, {oy!r})) has vertices up to '
+                      f'{d:.6g} px away from it', 'line')
             return
         # the arrow runs from start to end: extreme projections onto the direction are 0 and the length
         ux, uy = (ex - sx) / length, (ey - sy) / length
